@@ -210,7 +210,7 @@ PROPS = {
             "note": "Trusted: Lean kernel + standard axioms, harness/generators/comparer, driver glue, executable crypto (validated on go-bk vectors and by agreement on every generated case).",
             "technique": "executable Lean model + Lean 4 proofs on the multisig matching loop and flag logic + step-by-step differential correspondence check",
         },
-        "generators": ["C06"],
+        "generators": ["C06", "VEC06"],
         "gen_obligations": ["cleanup_allocates_script_code"],
         "witness": [("GoBT.Interp.WriteReview", "GoBT.Interp.WriteReview.offending")],
         "thorough_seeds": 1,
@@ -255,7 +255,7 @@ PROPS = {
             "note": "Partial: the model is the *transcription* of the BSV rules by which go-bt is judged; the refinement model = declarative spec for each opcode and decode(encode z) = z for all integers are not yet proved (numeric layer is checked exhaustively on ranges by the driver). Where the unrepaired code deviated (OP_LSHIFT/OP_RSHIFT), the model follows the node's rule (bit-string shift) and the code was repaired. Hash functions are executable Lean models validated on vectors. Trusted: Lean kernel + standard axioms, extractor, harness/generators/comparer, driver glue.",
             "technique": "executable Lean model + Lean 4 proofs of table obligations and invariants + step-by-step differential correspondence check",
         },
-        "generators": ["C05", "FZ05"],
+        "generators": ["C05", "VEC05", "FZ05"],
         "thorough_seeds": 2,
         "gen_obligations": ["dispatch_table_matches", "limits_match", "flags_match", "locktime_consts_match"],
         "rule": "exhaustive: every unary opcode x edge operands (empty, 00, 80, 01, 81, 7f, ff, non-minimal, 4/5/9-byte, 32/33-byte negative, 519/520/521 and 2000-byte), every binary opcode x E x E, WITHIN x E'^3, shifts for operand lengths {0,1,2,3,4,16,33} x counts 0..8n+1 plus negative/huge counts, both eras; type-directed random programs (stack-depth aware, nested IF/NOTIF/ELSE/ENDIF with OP_RETURN, VERIF, disabled and undefined opcodes in executed and skipped branches) under sampled policy flags; conditional matrices; limit probes (200/201/499/500/501 ops, 999/1000/1001 items, 519/520/521 bytes, 9999/10000/10001-byte scripts); P2SH redeem scripts; push forms under MINIMALDATA. Non-trivial = program that executed at least 3 instructions.",
@@ -329,6 +329,10 @@ PROPS["C16"]["manifest"]["text"] += (" The field-by-field node-style path is a t
 
 PROPS["C15"]["manifest"]["text"] += (" The converse is proved as well: every address the library derives (either network, any 20-byte hash) is accepted by"
                                      " ValidateAddress (derived_address_validates).")
+
+for _p in ("C05", "C06"):
+    PROPS[_p]["manifest"]["text"] += (" The Lean model is anchored independently of go-bt: on every run it is executed on the node-generated vectors shipped in the"
+                                     " repository (script_tests.json; the ones " + ("without" if _p == "C05" else "with") + " signature opcodes here) and its verdict must be the node's.")
 
 NOT_APPLICABLE = {}
 HOOK_COMMITS = []
